@@ -88,12 +88,15 @@ def tmax(a, b):
 
 
 class IV:
-    __slots__ = ("lo", "hi", "nan", "emp")
+    __slots__ = ("lo", "hi", "nan", "emp", "rel", "abe")
 
-    def __init__(self, lo, hi, nan=False, emp=False):
+    def __init__(self, lo, hi, nan=False, emp=False, rel=None, abe=None):
         self.lo, self.hi = lo, hi
         self.nan = np.asarray(nan, dtype=bool)
         self.emp = np.asarray(emp, dtype=bool)
+        # optional (ErrDomain): |computed - ideal| <= rel * |ideal| + abe, ideal = exact real evaluation of the same expression
+        self.rel = rel
+        self.abe = abe
 
     def has0(self):
         return ~self.emp & (self.lo <= 0) & (self.hi >= 0)
@@ -126,8 +129,9 @@ def _hull(cands, valids, fmt):
 
 
 class Domain:
-    def __init__(self, fmt):
+    def __init__(self, fmt, slack=None):
         self.fmt = fmt
+        self.slack = LIBM_SLACK if slack is None else slack  # units in the last place allowed to library functions
 
     # ------------------------------------------------------------------ constructors
     def const(self, v):
@@ -226,9 +230,9 @@ class Domain:
         return IV(lo, hi, A.nan | B.nan, A.emp | B.emp)
 
     # ------------------------------------------------------------------ library functions
-    def _widen(self, lo, hi, k=LIBM_SLACK):
+    def _widen(self, lo, hi, k=None):
         f = self.fmt
-        for _ in range(k):
+        for _ in range(self.slack if k is None else k):
             lo = np.where((lo == 0) | np.isinf(lo), lo, np.nextafter(lo, -f.inf))
             hi = np.where((hi == 0) | np.isinf(hi), hi, np.nextafter(hi, f.inf))
         return lo, hi
@@ -638,3 +642,210 @@ class _Ctx:
             v = _apply(k, a, dom)
         self.memo[t] = v
         return v
+
+
+# --------------------------------------------------------------------------- forward error analysis
+
+
+class ErrDomain(Domain):
+    """Interval domain that also carries, per value, an error bound  |computed - ideal| <= rel * |ideal| + abe,  where
+    `ideal` is the exact real-arithmetic value of the same expression on the same inputs (classical forward error analysis).
+    u = 2**-p is the unit roundoff of + - * / sqrt, eta = the spacing of subnormals (absolute error of a product or quotient
+    that may underflow); library functions contribute LIBM_SLACK units in the last place and propagate input errors through
+    a bound on their condition number / derivative.  Cancellation in a sum shows as (ra|a| + rb|b|) / |a + b|, the
+    conditioning of log at 1 as ra / |log a|.  `select` takes the worst possible arm.  Inputs and exactly representable
+    constants carry no error.  Magnitudes are taken from the computed intervals (first-order analysis)."""
+
+    def __init__(self, fmt):
+        super().__init__(fmt)
+        self.u = np.float64(2.0 ** -fmt.p)
+        self.ulib = np.float64(LIBM_SLACK * 2.0 ** (1 - fmt.p))
+        self.eta = np.longdouble(fmt.tiny)
+        self.small = np.longdouble(fmt.smallest)
+        self.BIG = np.float64(1e30)
+
+    # error components are kept as long doubles (abe can be far below the double range for float64 targets)
+    @staticmethod
+    def _e(A):
+        return (np.float64(0.0) if A.rel is None else A.rel), (np.longdouble(0.0) if A.abe is None else A.abe)
+
+    def _mag(self, A):
+        lo, hi = A.lo.astype(np.longdouble), A.hi.astype(np.longdouble)
+        amax = np.maximum(np.abs(lo), np.abs(hi))
+        amin = np.where((lo <= 0) & (hi >= 0), np.longdouble(0.0), np.minimum(np.abs(lo), np.abs(hi)))
+        return amin, amax
+
+    def _cap(self, r):
+        r = np.asarray(r, dtype=np.float64)
+        return np.minimum(np.where(np.isnan(r), self.BIG, r), self.BIG)
+
+    def _capa(self, a):
+        a = np.asarray(a, dtype=np.longdouble)
+        return np.where(np.isnan(a), np.longdouble(np.inf), a)
+
+    def _set(self, out, rel, abe):
+        out.rel, out.abe = self._cap(rel), self._capa(abe)
+        return out
+
+    def const(self, v):
+        out = super().const(v)
+        exact = np.float64(out.lo) == np.float64(v) or np.isnan(np.float64(v))
+        return self._set(out, 0.0 if exact else self.u, 0.0)
+
+    def box(self, lo, hi):
+        return self._set(super().box(lo, hi), 0.0, 0.0)
+
+    def neg(self, A):
+        return self._set(super().neg(A), *self._e(A))
+
+    def absolute(self, A):
+        return self._set(super().absolute(A), *self._e(A))
+
+    def add(self, A, B):
+        out = super().add(A, B)
+        (ra, aa), (rb, ab) = self._e(A), self._e(B)
+        _, amax = self._mag(A)
+        _, bmax = self._mag(B)
+        smin, _ = self._mag(out)
+        with np.errstate(all="ignore"):
+            same_sign = ((A.lo >= 0) & (B.lo >= 0)) | ((A.hi <= 0) & (B.hi <= 0))
+            prop = np.where(same_sign, np.maximum(ra, rb), ((ra * amax + rb * bmax) / smin).astype(np.float64))
+            prop = np.where((ra == 0) & (rb == 0), 0.0, prop)
+        # the sum of two floats is exact when it is subnormal: no eta term
+        return self._set(out, prop * (1 + self.u) + self.u, (aa + ab) * (1 + self.u))
+
+    def mul(self, A, B):
+        out = super().mul(A, B)
+        (ra, aa), (rb, ab) = self._e(A), self._e(B)
+        _, amax = self._mag(A)
+        _, bmax = self._mag(B)
+        omin, _ = self._mag(out)
+        with np.errstate(all="ignore"):
+            abe = amax * ab + bmax * aa + aa * ab
+            abe = np.where((aa == 0) & (ab == 0), np.longdouble(0.0), abe)
+            abe = abe + np.where(omin < self.small, self.eta, np.longdouble(0.0))
+        return self._set(out, (ra + rb + ra * rb) * (1 + self.u) + self.u, abe)
+
+    def div(self, A, B):
+        out = super().div(A, B)
+        (ra, aa), (rb, ab) = self._e(A), self._e(B)
+        _, amax = self._mag(A)
+        bmin, _ = self._mag(B)
+        omin, _ = self._mag(out)
+        with np.errstate(all="ignore"):
+            abe = aa / bmin + ab * amax / (bmin * bmin)
+            abe = np.where((aa == 0) & (ab == 0), np.longdouble(0.0), abe)
+            abe = abe + np.where(omin < self.small, self.eta, np.longdouble(0.0))
+            rel = (ra + rb) / (1 - np.minimum(rb, 0.5)) * (1 + self.u) + self.u
+        return self._set(out, rel, abe)
+
+    def sqrt(self, A):
+        out = super().sqrt(A)
+        ra, aa = self._e(A)
+        amin, _ = self._mag(A)
+        with np.errstate(all="ignore"):
+            abe = np.where(aa == 0, np.longdouble(0.0), np.minimum(np.sqrt(aa), aa / (2 * np.sqrt(amin))))
+        return self._set(out, ra / 2 * (1 + ra) + self.u, abe)
+
+    def maximum(self, A, B):
+        (ra, aa), (rb, ab) = self._e(A), self._e(B)
+        return self._set(super().maximum(A, B), np.maximum(ra, rb), np.maximum(aa, ab))
+
+    def minimum(self, A, B):
+        (ra, aa), (rb, ab) = self._e(A), self._e(B)
+        return self._set(super().minimum(A, B), np.maximum(ra, rb), np.maximum(aa, ab))
+
+    def sign(self, A):
+        return self._set(super().sign(A), 0.0, 0.0)
+
+    def copysign(self, A, B):
+        return self._set(super().copysign(A, B), *self._e(A))
+
+    def _lib(self, A, out, cond, deriv):
+        """library function: rel_out = cond * ra + ulib, abe_out = deriv * aa  (cond, deriv: sup over the interval)"""
+        ra, aa = self._e(A)
+        with np.errstate(all="ignore"):
+            r_ = np.where(ra == 0, 0.0, np.asarray(cond * ra, dtype=np.float64))
+            a_ = np.where(aa == 0, np.longdouble(0.0), deriv * aa)
+        return self._set(out, r_ * (1 + self.ulib) + self.ulib, a_)
+
+    def log(self, A):
+        out = super().log(A)
+        omin, _ = self._mag(out)
+        amin, _ = self._mag(A)
+        with np.errstate(all="ignore"):
+            return self._lib(A, out, 1.0 / omin, 1.0 / amin)
+
+    def log2(self, A):
+        out = Domain.log2(self, A)
+        omin, _ = self._mag(out)
+        amin, _ = self._mag(A)
+        with np.errstate(all="ignore"):
+            return self._lib(A, out, 1.4426950408889634 / omin, 1.4426950408889634 / amin)
+
+    def log10(self, A):
+        out = Domain.log10(self, A)
+        omin, _ = self._mag(out)
+        amin, _ = self._mag(A)
+        with np.errstate(all="ignore"):
+            return self._lib(A, out, 0.4342944819032518 / omin, 0.4342944819032518 / amin)
+
+    def log1p(self, A):
+        out = super().log1p(A)
+        lo = A.lo.astype(np.longdouble)
+        with np.errstate(all="ignore"):
+            d = np.where(lo >= 0, np.longdouble(1.0), 1.0 / np.maximum(1.0 + lo, np.longdouble(1e-4000)))
+        # |a / ((1 + a) log1p(a))| <= 1 for a >= 0 and <= 1 / (1 + a) for -1 < a < 0
+        return self._lib(A, out, d, d)
+
+    def exp(self, A):
+        out = super().exp(A)
+        _, amax = self._mag(A)
+        _, omax = self._mag(out)
+        return self._lib(A, out, amax, omax)
+
+    def expm1(self, A):
+        out = super().expm1(A)
+        _, amax = self._mag(A)
+        _, omax = self._mag(out)
+        return self._lib(A, out, np.maximum(amax, 1.0), omax + 1)
+
+    def atan(self, A):
+        return self._lib(A, super().atan(A), np.longdouble(1.0), np.longdouble(1.0))
+
+    def tanh(self, A):
+        return self._lib(A, super().tanh(A), np.longdouble(1.0), np.longdouble(1.0))
+
+    def atan2(self, Y, X):
+        out = super().atan2(Y, X)
+        (ry, ay), (rx, ax) = self._e(Y), self._e(X)
+        ymin, ymax = self._mag(Y)
+        xmin, xmax = self._mag(X)
+        with np.errstate(all="ignore"):
+            # d(theta) = (x dy - y dx) / (x^2 + y^2); the relative parts give at most (rx + ry) |theta|
+            abe = np.where((ay == 0) & (ax == 0), np.longdouble(0.0), (xmax * ay + ymax * ax) / (xmin * xmin + ymin * ymin))
+        return self._set(out, (ry + rx) * (1 + self.ulib) + self.ulib, abe)
+
+    def sin(self, A):
+        return self._set(super().sin(A), self.BIG, 0.0)
+
+    def cos(self, A):
+        return self._set(super().cos(A), self.BIG, 0.0)
+
+    def join(self, A, B):
+        out = super().join(A, B)
+        (ra, aa), (rb, ab) = self._e(A), self._e(B)
+        rel = np.where(A.emp, rb, np.where(B.emp, ra, np.maximum(ra, rb)))
+        abe = np.where(A.emp, ab, np.where(B.emp, aa, np.maximum(aa, ab)))
+        return self._set(out, rel, abe)
+
+    def select(self, C, A, B):
+        out = super().select(C, A, B)
+        if isinstance(out, IV):
+            (ra, aa), (rb, ab) = self._e(A), self._e(B)
+            onlyt = C.t & ~C.f
+            onlyf = C.f & ~C.t
+            rel = np.where(onlyt, ra, np.where(onlyf, rb, np.where(A.emp, rb, np.where(B.emp, ra, np.maximum(ra, rb)))))
+            abe = np.where(onlyt, aa, np.where(onlyf, ab, np.where(A.emp, ab, np.where(B.emp, aa, np.maximum(aa, ab)))))
+            self._set(out, rel, abe)
+        return out
